@@ -360,11 +360,18 @@ class Runner:
         before = dict(self.sst.pristine)
         after = self.sst.fingerprint(inst)
         if self.sst.kind == "p":
+            lazy = before.pop("lazy") != after.pop("lazy")
             for idx, kfp in core.loaded_kernel_schedules(inst["root"]).items():
                 ref = self.sst.pristine_kernel(idx)
                 before[f"kernel{idx}"] = ref.get("code", "") + "\n" + \
                     ref.get("symtab", "")
                 after[f"kernel{idx}"] = kfp["code"] + "\n" + kfp["symtab"]
+            if not core.changed_components(before, after):
+                # structure and kernels unchanged: the generated code decides
+                before["gen"] = self.sst.get_pristine_gen()
+                after["gen"] = self.sst.gen_text(inst)
+                if lazy and before["gen"] == after["gen"]:
+                    self._count("psy:lazily-materialised-state-only")
         changed = core.changed_components(before, after)
         if not changed:
             res["hidden"] = True
@@ -403,8 +410,7 @@ class Runner:
         if outcome == "TE":
             where = res["site"]
             if inject is not None:
-                call = res["calls"][inject]
-                where = f"{call['label']}#{'0' if call['n'] == 0 else 'n'}"
+                where = self._inject_label(res, inject)
                 if res["site"] != "injected":
                     where += f">{res['site']}"
             if res["fullsite"]:
@@ -442,6 +448,14 @@ class Runner:
         return res
 
     @staticmethod
+    def _inject_label(res, inject):
+        """Signature label of an injected refusal: the outermost nested call
+        (made directly by the transformation under test) inside which the
+        refusal was raised, first vs. later occurrence of that call site."""
+        call = res["calls"][res["calls"][inject]["top"]]
+        return f"{call['label']}#{'0' if call['n'] == 0 else 'n'}"
+
+    @staticmethod
     def _msg(res):
         try:
             return str(res["err"].value)[:240]
@@ -471,8 +485,9 @@ class Runner:
                + (f":inj{inject}" if inject is not None else ""))
         msg = (f"{self.trans}({self.ctor or ''}).apply on seed "
                f"'{self.sst.name}' target {tkey} options {odesc} "
-               + (f"with nested call #{inject} ({where}) refusing "
-                  if inject is not None else "")
+               + (f"with nested call #{inject} "
+                  f"({res['calls'][inject]['label']}, inside {where}) "
+                  f"replaced by a refusal " if inject is not None else "")
                + f"raised TransformationError at {res['site']} "
                f"('{self._msg(res)[:120]}') but the fingerprint changed in "
                f"{changed}: {core.diff_excerpt(before, after)[:600]}")
@@ -526,8 +541,7 @@ class Runner:
                 found = True
                 where = res["site"]
                 if inject is not None:
-                    call = res["calls"][inject]
-                    where = f"{call['label']}#{'0' if call['n'] == 0 else 'n'}"
+                    where = self._inject_label(res, inject)
                 self._count("gen:refused-CHANGED")
                 self._violation(tdescs, odesc, inject, res, where,
                                 ["gen"], {"gen": ref}, {"gen": text})
